@@ -195,6 +195,53 @@ def compare_sites(ctx, se):
             sty = ctx.fb.ty(cargs[0]["ty"]) if cargs and "ty" in cargs[0] else None
             rty = ctx.fb.ty(cargs[1]["ty"]) if len(cargs) > 1 and "ty" in cargs[1] else None
             out.append({"bb": bb, "op": "eq" if t["callee"].endswith("::eq") else "ne", "self_ty": sty, "rhs_ty": rty, "args": info["args"], "term": info["term"], "resolved": t.get("resolved")})
+    out.extend(fold_equalities(ctx, se))
+    return out
+
+
+def fold_equalities(ctx, se):
+    """`a.iter().zip(b.iter()).fold(0, |acc, (x, y)| acc | (x ^ y)) == 0` over two arrays of the
+    same type: an equality of the whole arrays that looks at every byte (no early exit).
+    Anything else (another accumulator, another start value, slices, prefixes) is not listed."""
+    from rules import arith
+    import ranges
+
+    out = []
+    seen = set()
+    pr = None
+    for (bi, si), (loc, v) in sorted(se.assigns.items()):
+        v0 = strip(v)
+        if not (v0[0] == "binop" and v0[1] in ("Eq", "Ne")) or v0 in seen:
+            continue
+        a, b = v0[2], v0[3]
+        if a[:2] == ("int", 0):
+            a, b = b, a
+        if b[:2] != ("int", 0) or not (is_call(a) and a[1].endswith("::fold") and len(a[2]) == 3):
+            continue
+        it, init, cl = a[2]
+        if init[:2] != ("int", 0) or not (cl[0] == "agg" and cl[1] == "closure" and not cl[4]):
+            continue
+        if not (is_call(it) and it[1].endswith("::zip") and all(is_call(x, "core::slice::<impl [T]>::iter") for x in it[2])):
+            continue
+        cse = ctx.flat.run(cl[2])
+        if cse is None or cfg.back_edges(cse.body):
+            continue
+        env = {("param", 2): "acc", ("field", ("param", 3), 0): "x", ("field", ("param", 3), 1): "y"}
+        n = arith.norm(cse.ret, env)
+        if n != ("or", frozenset([("sym", "acc"), ("xor", frozenset([("sym", "x"), ("sym", "y")]))])):
+            continue
+        A, B = it[2][0][2][0], it[2][1][2][0]
+        if pr is None:
+            pr = ranges.World(ctx).prover(se.fn)
+        ta = pr.type_of(strip(A)) if pr is not None else None
+        tb = pr.type_of(strip(B)) if pr is not None else None
+        if ta is None or tb is None:
+            continue
+        ta, tb = ta.peel_refs(), tb.peel_refs()
+        if ta.k != "array" or ta.s != tb.s:
+            continue
+        seen.add(v0)
+        out.append({"bb": bi, "op": "eq" if v0[1] == "Eq" else "ne", "self_ty": ta, "rhs_ty": tb, "args": (A, B), "term": v, "resolved": "or-fold of byte differences", "via": "or-fold"})
     return out
 
 
@@ -1026,6 +1073,19 @@ def closure_value(ctx, cl, args=()):
     if any(x == ("closure-env",) or x[0] in ("phi", "param") and x[0] == "phi" for x in walk(r)):
         return None
     return r
+
+
+def resolve_locals(se, bb, t):
+    """replace places of the enclosing function that a closure captured by reference
+    (("local", n) left over after stripping the reference) by their value at block bb"""
+    st = se.in_state.get(bb, {})
+
+    def f(x):
+        if x[0] == "local":
+            return strip(se.read(st, x))
+        return None
+
+    return map_term(strip(t), f)
 
 
 def value_select(ctx, se, t):
